@@ -2,7 +2,8 @@
 From Coq Require Import List NArith Arith Bool.
 Import ListNotations.
 Require Import SV.Base.Res SV.Simp.Core SV.Layout.Ty SV.Layout.Value SV.Lang.Ast SV.Comp.Select SV.Comp.Compile SV.Lang.Sem SV.Lang.WT
-               SV.Proofs.EvalBasics SV.Proofs.CompileCorrect SV.Proofs.CompileTotal.
+               SV.Proofs.EvalBasics SV.Proofs.CompileCorrect SV.Proofs.CompileTotal
+               SV.Simp.Typing SV.Proofs.CompileTyped SV.Jets.JetModel SV.Gen.JetTable.
 
 (* in every scope for which an input value exists, a well-typed expression compiles: the result is never Err
    (UndefinedVariable / CannotCompile) and never Panic (as_list().unwrap(), Partition::from_slice's assert,
@@ -16,3 +17,27 @@ Theorem C03_program_total : forall args dbg jsig W main,
   wt_program jsig W args main = true -> exists t, compile_program dbg args main = Ok t.
 Proof. exact compile_program_total. Qed.
 Print Assumptions C03_program_total.
+
+(* The emitted term is well typed in Simplicity's declarative type system, at the layout of the scope and of the
+   expression's type: this is what the type inference of the Simplicity library, the last step of code generation,
+   has to reconstruct.  Instantiated with the jet table REGENERATED from jet.rs (Gen/JetTable.v): no hypothesis on jets. *)
+Theorem C03_compile_typed : forall dbg args W G sc A t e,
+  wt jet_sig W args G e = true -> ScopeTy G sc A -> compile dbg args sc e = Ok t ->
+  tj jet_sty (wty_layout W) t A (struct_ty (ty_of e)).
+Proof. exact compile_typed_table. Qed.
+Print Assumptions C03_compile_typed.
+
+Theorem C03_program_typed : forall dbg args W main t,
+  wt_program jet_sig W args main = true -> compile_program dbg args main = Ok t ->
+  tj jet_sty (wty_layout W) t SUnit SUnit.
+Proof. exact compile_program_typed_table. Qed.
+Print Assumptions C03_program_typed.
+
+(* soundness of that type system for the evaluator: typed terms on typed inputs are never stuck and return typed values *)
+Theorem C03_typed_terms_safe : forall jsig_s wty jet wit,
+  (forall j a b v w, jsig_s j = Some (a,b) -> vty v a = true -> jet j v = Some w -> vty w b = true) ->
+  (forall n b, wty n = Some b -> exists v, wit n = Some v /\ vty v b = true) ->
+  forall t a b v, tj jsig_s wty t a b -> vty v a = true ->
+  eval jet wit t v = Failed \/ exists w, eval jet wit t v = Val w /\ vty w b = true.
+Proof. exact tj_sound. Qed.
+Print Assumptions C03_typed_terms_safe.
